@@ -273,11 +273,15 @@ impl ParserListener for Tap {
     fn cursor_position(&mut self, line: Option<u32>, character: Option<u32>) {
         self.call(Call::CursorPosition(line, character))
     }
-    fn erase_in_display(&mut self, how: Option<u32>, _private: Option<bool>) {
-        self.call(Call::EraseInDisplay(how))
+    fn erase_in_display(&mut self, how: Option<u32>, private: Option<bool>) {
+        crate::call::PRIVATE.with(|p| p.set(private));
+        self.call(Call::EraseInDisplay(how));
+        crate::call::PRIVATE.with(|p| p.set(None));
     }
-    fn erase_in_line(&mut self, how: Option<u32>, _private: Option<bool>) {
-        self.call(Call::EraseInLine(how))
+    fn erase_in_line(&mut self, how: Option<u32>, private: Option<bool>) {
+        crate::call::PRIVATE.with(|p| p.set(private));
+        self.call(Call::EraseInLine(how));
+        crate::call::PRIVATE.with(|p| p.set(None));
     }
     fn insert_lines(&mut self, count: Option<u32>) {
         self.call(Call::InsertLines(count))
@@ -291,8 +295,10 @@ impl ParserListener for Tap {
     fn erase_characters(&mut self, count: Option<u32>) {
         self.call(Call::EraseCharacters(count))
     }
-    fn report_device_attributes(&mut self, mode: Option<u32>, _private: Option<bool>) {
-        self.call(Call::ReportDeviceAttributes(mode))
+    fn report_device_attributes(&mut self, mode: Option<u32>, private: Option<bool>) {
+        crate::call::PRIVATE.with(|p| p.set(private));
+        self.call(Call::ReportDeviceAttributes(mode));
+        crate::call::PRIVATE.with(|p| p.set(None));
     }
     fn cursor_to_line(&mut self, line: Option<u32>) {
         self.call(Call::CursorToLine(line))
